@@ -31,10 +31,10 @@ def alphabet_size(cfg):
     return len(re.findall(r'"(?:[^"\\]|\\.)*"', body))
 
 
-def documents(ck, depth, laws=True):
+def documents(ck, depth, laws=True, only=None):
     """All documents of <= depth lines over every alphabet."""
     jobs = []
-    for a in ALPHABETS:
+    for a in (only or ALPHABETS):
         cfg = 'BlockParse%s_%d.cfg' % (a, depth)
         if depth <= 3:
             jobs.append((cfg, '-'))           # small enough for one TLC process per alphabet
@@ -58,11 +58,12 @@ def documents(ck, depth, laws=True):
                 continue
             seen.add(d['src'])
             docs.append(d)
-    if len(docs) < 5000:
+    if len(docs) < (5000 if only is None else 500 * len(only)):
         raise core.MachineryError('BlockParse.tla exported only %d documents' % len(docs))
     ck.extra['blockparse_documents'] = len(docs)
-    ck.extra['blockparse_alphabets'] = len(ALPHABETS)
-    docs = docs + [d for d in simulate(ck, 600 if depth <= 3 else 20000, laws=laws) if d['src'] not in seen]
+    ck.extra['blockparse_alphabets'] = len(only or ALPHABETS)
+    if only is None:
+        docs = docs + [d for d in simulate(ck, 600 if depth <= 3 else 20000, laws=laws) if d['src'] not in seen]
     ck.extra['blockparse_unsettled_documents_not_judged'] = len(docs) - len(settled(docs))
     return settled(docs)
 
